@@ -5,9 +5,11 @@ import (
 	"fmt"
 	"go/parser"
 	"go/token"
+	"io"
 	"strconv"
 	"strings"
 	"testing"
+	"testing/iotest"
 
 	"github.com/rogpeppe/go-internal/imports"
 	"pgregory.net/rapid"
@@ -57,9 +59,45 @@ func parserImports(src []byte, mode parser.Mode) ([]string, error) {
 // when a later call reads a different file.
 var otherInput = []byte("// Copyright. A different file, read later.\n\npackage later /* " + strings.Repeat("z", 300) + " */\n\nimport (\n\t\"later/one\"\n\tl2 \"later/two\"\n)\n\nvar later = 1\n")
 
+// readerFor wraps the input in one of several io.Reader behaviours, chosen by a hash of the input so that a replayed
+// case reads the same way: all at once, one byte per call, half of the request, data returned together with io.EOF,
+// or in chunks of 7 bytes.
+func readerFor(src []byte) io.Reader {
+	h := uint32(2166136261)
+	for _, b := range src {
+		h = (h ^ uint32(b)) * 16777619
+	}
+	r := bytes.NewReader(append([]byte(nil), src...))
+	switch h % 8 {
+	case 1:
+		return iotest.OneByteReader(r)
+	case 2:
+		return iotest.HalfReader(r)
+	case 3:
+		return iotest.DataErrReader(r)
+	case 4:
+		return iotest.DataErrReader(iotest.OneByteReader(r))
+	case 5:
+		return &chunkReader{r: r, n: 7}
+	}
+	return r
+}
+
+type chunkReader struct {
+	r io.Reader
+	n int
+}
+
+func (c *chunkReader) Read(p []byte) (int, error) {
+	if len(p) > c.n {
+		p = p[:c.n]
+	}
+	return c.r.Read(p)
+}
+
 func readImports(src []byte, strict bool) (data []byte, list []string, err error, fail *vt.Fail) {
 	fail = vt.Guard("readimports-panic", func() *vt.Fail {
-		data, err = imports.ReadImports(bytes.NewReader(append([]byte(nil), src...)), strict, &list)
+		data, err = imports.ReadImports(readerFor(src), strict, &list)
 		snapshot := append([]byte(nil), data...)
 		names := append([]string(nil), list...)
 		var other []string
